@@ -99,18 +99,18 @@ CLAIMED = {
 # additions after the coverage audit (DESIGN.md section 0.9): appended to the texts above
 EXTRA = {
  "C01": "Added: C01_one_reply (exactly one reply; a non-Success reply is HTTP 500 or one of four non-Success status codes), C01_failed_response_content (from the builder source: a failed response has no assertion content). C01_failed_refines_model (the failed Response document abstracts to the CFailed message of the callback model; no assertion).",
- "C02": "Added: the service-provider record of every case is checked against the registered metadata document (sprec_of_doc: model of Unmarshal + projection; consumer services in document order); C02_accepted_record (an accepted request hands exactly one record to the storage: non-empty registered consumer URL, supported binding, the request's own RelayState / ID) and C02_end_to_end (a callback for a record storing those values delivers to that URL by that binding).",
+ "C02": "Added: the service-provider record of every case is checked against the registered metadata document (sprec_of_doc: model of Unmarshal + projection; consumer services in document order); C02_accepted_record (an accepted request hands exactly one record to the storage: non-empty registered consumer URL, supported binding, the request's own RelayState / ID) and C02_end_to_end (a callback for a record storing those values delivers to that URL by that binding). C02_end_to_end_document: composition with the builder programs -- whatever the callback answers for a record the SSO handler handed over, the document built for that answer carries that request ID and that registered consumer URL (Destination / Recipient).",
  "C03": "Added: C03_built_response / C03_built_attributes (the response document's fields, from the builder programs go2v translates from response.go / attributes.go), C03_delivery_from_source, C03_schema (struct tags vs the SAML schemas). The C18 correspondence rebuilds every real reply from those builders. C03_built_attributes_any_custom / C03_attribute_statement_any_custom: by induction over the custom attributes, GetSAML and the attribute statement of the assertion in the successful Response are exactly the non-empty standard attributes followed by one attribute per custom attribute, for any number of them; C03_attribute_statement_refines_model: that statement abstracts field by field to the hand-written model attrs_of u the handler theorems use; C03_response_refines_model: the whole Success document abstracts to the abstract message of C03_fields (request ID, Destination / Recipient, audience, NameID, attributes), for every stored request and user.",
  "C04": "Added: C04_redirect_url (the octets a verifier rebuilds from consumer URL + separator + query are the signed ones unless the consumer URL's own query names a signed parameter) and its refutation C04_redirect_url_refuted (F-04d, reproduced on the implementation, known), C04_signature_kind_from_source.",
  "C05": "Added: C05_keyinfo_registered (a KeyInfo the signature carries must contain a certificate registered for the provider). C05_necessity_from_source / C05_certificate_check_from_source: the deciding functions of post.go / redirect.go / sso.go (when a signature or a certificate has to be checked, and the certificate check with its three nested loops), translated by go2v with pointers as options (Gen/Nec.v), equal the model conditions the signature theorems assume; executed against the Go functions through a verif hook in C11 run (KNec).",
  "C09": "Added: every SSO request of the structural-edit streams carries its document tree; Coq checks that the model of Unmarshal + projection (authn_of_doc) yields the abstract request the harness derived from the handler's own decoder.",
  "C06": "Added: C06_request_view / C06_wrong_root_refused / C06_trailing_content_refused / C06_unknown_content_ignored (decode = InflateAndDecode + Unmarshal model + projection; checked against the real decoder on every SSO case), C06_encoding / C06_unknown_encoding_refused (decode oracle opened to InflateAndDecode + parser, form read off the source by C06_decode_from_source), C06_schema. C06_time_check_from_source / C06_time_arguments_from_source: the validity-window check of time.go translated by go2v (clock and time.Parse as oracles) equals time_valid on absent / unparsable / parsed instants; executed against the Go function through a verif hook (KTime in the C11 run).",
  "C07": "Added: C07_canonical_document_decodes (the decode model -- Unmarshal over the generated schema + projection, checked against the handler's decoder on every generated request -- is live on the canonical serialisation for all values).",
- "C08": "Added: C08_single_write, C08_terminal, C08_prechecks (delivery, terminal switch and pre-chain checks derived from the statement facts of sendBackResponse / ssoHandleFunc).",
+ "C08": "Added: C08_single_write, C08_terminal, C08_prechecks (delivery, terminal switch and pre-chain checks derived from the statement facts of sendBackResponse / ssoHandleFunc). C08_failure_refines_model (the failure reply of the SSO model is what the makeFailedResponse document abstracts to).",
  "C10": "Added: C10_response_key / C10_metadata_key / C10_key_guards_order (which answers of the key getters are accepted, from the guard statements of getResponseCert / getMetadataCert); the correspondence derives cert_ok / mkey_ok from the injected answer shape.",
- "C11": "Added: C11_metadata_document (the metadata document from the translated builders of metadata.go / identityprovider.go: entityID, flag, key descriptors, locations, for every configuration); every metadata document of the configuration sweep is rebuilt from source + schema and compared with the served one (KMetaDoc); C11_unsigned_accepted_otherwise (the converse of the flag clause); C11_schema (metadata struct tags vs the SAML metadata schema). Advertised = checked: C11_destination_checks_from_source (the two Destination check functions, translated by go2v, for every descriptor and request), C11_checked_value_from_source (the checks receive the role descriptor p.GetMetadata returned), C11_checked_is_advertised (a request passes exactly when it names no Destination or the advertised location), C11_accepted_destination; the Go functions run against the generated Gallina through verif hooks (KDest) and, per configuration, requests addressed to the advertised / other locations are accepted / refused accordingly. C11_document_is_router_model (the built document's locations and entityID are the router model's advertised list and entity ID) and C11_advertised_request_path (Core/UrlPath.v: the path component of an advertised location is the issuer's path prefix followed by the handler's route; net/url vs url_path on every advertised location, KUrl).",
- "C12": "Added: the decode oracle as a function of the request body (aquery_of_doc: model of Unmarshal + projection), checked against DecodeAttributeQuery on every case; C12_built_response (the answer document's fields from the builder source), C12_schema, C12_answered_destination (an answered query named no Destination or the advertised AttributeService location); requested attributes with empty / absent Name (which designate nothing) are part of the generated queries. C12_filter_from_source (the filtering statement of the translated program, executed symbolically for all attribute and request lists by nested induction) and C12_answer_refines_model (the whole answer program: the attribute statement abstracts to filter_attrs requested (attrs_of u), the am_attrs of C12_answered, for every user and request list); C12_answer_message_refines_model (the whole amsg). C12_signature_guards_from_source (the translated signaturePostProvided / certificateCheckNecessary / checkCertificate are the guards of C12_answered).",
- "C13": "Added: the decode oracle as a function of the request document (lreq_of_doc), checked against DecodeLogoutRequest on every case; C13_built_response, C13_delivery_from_source, C13_codec, C13_schema. C13_response_refines_model (the LogoutResponse document abstracts to the lmsg of the logout model). C13_time_check_from_source (the translated time check with the logout handler arguments).",
+ "C11": "Added: C11_metadata_document (the metadata document from the translated builders of metadata.go / identityprovider.go: entityID, flag, key descriptors, locations, for every configuration); every metadata document of the configuration sweep is rebuilt from source + schema and compared with the served one (KMetaDoc); C11_unsigned_accepted_otherwise (the converse of the flag clause); C11_schema (metadata struct tags vs the SAML metadata schema). Advertised = checked: C11_destination_checks_from_source (the two Destination check functions, translated by go2v, for every descriptor and request), C11_checked_value_from_source (the checks receive the role descriptor p.GetMetadata returned), C11_checked_is_advertised (a request passes exactly when it names no Destination or the advertised location), C11_accepted_destination; the Go functions run against the generated Gallina through verif hooks (KDest) and, per configuration, requests addressed to the advertised / other locations are accepted / refused accordingly. C11_document_is_router_model (the built document's locations and entityID are the router model's advertised list and entity ID) and C11_advertised_request_path (Core/UrlPath.v: the path component of an advertised location is the issuer's path prefix followed by the handler's route; net/url vs url_path on every advertised location, KUrl). C11_flag_enforced_from_source (on the translated deciders: with the advertised flag true a signature check is necessary for every request of the matching binding; with neither flag true exactly when the request carries a signature).",
+ "C12": "Added: the decode oracle as a function of the request body (aquery_of_doc: model of Unmarshal + projection), checked against DecodeAttributeQuery on every case; C12_built_response (the answer document's fields from the builder source), C12_schema, C12_answered_destination (an answered query named no Destination or the advertised AttributeService location); requested attributes with empty / absent Name (which designate nothing) are part of the generated queries. C12_filter_from_source (the filtering statement of the translated program, executed symbolically for all attribute and request lists by nested induction) and C12_answer_refines_model (the whole answer program: the attribute statement abstracts to filter_attrs requested (attrs_of u), the am_attrs of C12_answered, for every user and request list); C12_answer_message_refines_model (the whole amsg). C12_signature_guards_from_source (the translated signaturePostProvided / certificateCheckNecessary / checkCertificate are the guards of C12_answered). C12_end_to_end_document (whenever the handler model answers with user data, the document built from the values the handler passes abstracts to exactly that answer).",
+ "C13": "Added: the decode oracle as a function of the request document (lreq_of_doc), checked against DecodeLogoutRequest on every case; C13_built_response, C13_delivery_from_source, C13_codec, C13_schema. C13_response_refines_model (the LogoutResponse document abstracts to the lmsg of the logout model). C13_time_check_from_source (the translated time check with the logout handler arguments). C13_end_to_end_document (a posted reply goes to the first registered SingleLogoutService location and the built LogoutResponse carries it as Destination), C13_failure_refines_model.",
  "C14": "Added: C14_oversized_not_accepted / C14_oversized_decode_fails (an oversized DEFLATE payload is never accepted by the SSO handler, with decode = InflateAndDecode + parser).",
  "C15": "Added: C15_sso_program / C15_concurrent_sso (the SSO handler as a program over atomic storage operations; N concurrent SSO requests under every schedule are answered as alone on the initial storage and never share a stored request), C15_id_legal (NewID() values are legal xs:ID), C15_callbacks_among_sso (callbacks for requests that existed before the run are isolated among concurrently creating SSO threads).",
  "C16": "Added: registration keeps the consumer services as written and in document order (sprec_of_doc, checked in the SSO / logout / attribute-query correspondences); C16_member without hypothesis; C16_rule_any_metadata (exact rule for arbitrary registered metadata, entries with empty Location included).",
